@@ -621,6 +621,7 @@ class Harness:
         self.seq = 0
         self.activity = 0
         self.counters = _Counter()
+        self.api_busy = False
         self.queues: list[SQueue] = []
         self.busy: dict[int, real_threading.Thread] = {}
         self.parked_in_get = 0
@@ -676,7 +677,12 @@ class Harness:
         return n
 
     def start(self):
-        self.node.start()
+        # Node.start() dials the persistent peers from the caller's thread while the I/O thread already runs
+        self.api_busy = True
+        try:
+            self.node.start()
+        finally:
+            self.api_busy = False
         self.wait_parked()
 
     # ----- gate
